@@ -63,7 +63,14 @@ def gen_case(run_seed: int, index: int, tier: str) -> dict:
     dtype = rng.choice(["float32", "float32", "float64", "int64", "int32", "float16", "bfloat16", "int8"] + (["bool"] if alphabet == "01" else []))
     p = rng.choice(PROBS) if rng.random() < 0.8 else round(rng.random(), 4)
     es = rng.choice([-1, -1, 2, 0.5, 7]) if alphabet == "01" else rng.choice([0, 0, 2, 0.5])
+    if rng.random() < 0.15:
+        es = rng.choice(["nan", "inf", "-inf"])  # a non-finite marker for "missing" (kept as text in the case; float() of it is used)
+    # many short words through one channel object: the number of events per call must be binomial, not merely right on average
+    words = {"calls": rng.choice([1500, 3000]), "len": rng.choice([7, 8, 16, 31, 64]), "eligible": None} if rng.random() < 0.3 else None
+    if words is not None:
+        words["eligible"] = rng.randrange(1, words["len"] + 1) if ch == "z" else words["len"]
     return {
+        "words": words,
         "channel": ch, "p": p, "alphabet": alphabet, "dtype": dtype, "shape": shape,
         "input": rng.choice(["random", "random", "random", "sparse", "dense", "all_one", "all_zero"]),
         "erasure_symbol": es, "torch_seed": rng.randrange(1 << 31), "data_seed": rng.randrange(1 << 31),
@@ -98,20 +105,25 @@ def _input(case):
     return b.to(DT[case["dtype"]]), b.bool()
 
 
+def _es(case):
+    v = case["erasure_symbol"]
+    return float(v) if isinstance(v, str) else v
+
+
 def _channel(case):
     p = torch.tensor(case["p"]) if case["p_as_tensor"] else case["p"]
     if case["how"] == "registry":
         if case["channel"] == "bsc":
             return ChannelRegistry.create("binarysymmetricchannel", crossover_prob=p)
         if case["channel"] == "bec":
-            return ChannelRegistry.create("binaryerasurechannel", erasure_prob=p, erasure_symbol=case["erasure_symbol"])
+            return ChannelRegistry.create("binaryerasurechannel", erasure_prob=p, erasure_symbol=_es(case))
         return ChannelRegistry.create("binaryzchannel", error_prob=p)
     if case["channel"] == "bsc":
         return BinarySymmetricChannel(p) if case.get("how") != "keyword" else BinarySymmetricChannel(crossover_prob=p)
     if case["channel"] == "bec":
         if case.get("how") == "positional":
-            return BinaryErasureChannel(p, case["erasure_symbol"])  # both documented parameters by position
-        return BinaryErasureChannel(p, erasure_symbol=case["erasure_symbol"])
+            return BinaryErasureChannel(p, _es(case))  # both documented parameters by position
+        return BinaryErasureChannel(p, erasure_symbol=_es(case))
     return BinaryZChannel(p) if case.get("how") != "keyword" else BinaryZChannel(error_prob=p)
 
 
@@ -176,7 +188,7 @@ def execute(case: dict) -> RunResult:
     flat_ones = ones.reshape(-1)
     if case["channel"] == "bec":
         es = float(case["erasure_symbol"])
-        erased = (yf == es)
+        erased = torch.isnan(yf) if es != es else (yf == es)
         if not bool((in_alpha | erased).all()):
             violate("alphabet", f"output contains values outside the alphabet plus the erasure symbol: {sorted(set(yf.reshape(-1).tolist()))[:6]}")
         if not bool((erased | (yf == xf)).all()):
@@ -212,7 +224,8 @@ def execute(case: dict) -> RunResult:
         y2 = ch(x)
         y2f = y2.to(torch.float64)
         if case["channel"] == "bec":
-            e2 = (y2f == float(case["erasure_symbol"])).reshape(-1)
+            es2 = float(case["erasure_symbol"])
+            e2 = (torch.isnan(y2f) if es2 != es2 else (y2f == es2)).reshape(-1)
         else:
             e2 = (y2f != xf).reshape(-1)
             if case["channel"] == "z":
@@ -222,6 +235,48 @@ def execute(case: dict) -> RunResult:
         res.probes["stat.cross_call_tests"] += 1
         if not ok:
             violate("dependence_across_calls", f"two consecutive uses of the channel on the same input do not fault independently (joint rate vs p^2): {d}", stat=True)
+    # ---------------------------------------------------------------- many short words through the same object
+    wd = case.get("words")
+    if wd and inside and not res.violations:
+        N, L, K = wd["calls"], wd["len"], wd["eligible"]
+        gw = torch.Generator().manual_seed(case["data_seed"] ^ 0x77)
+        counts = []
+        es_w = float(case["erasure_symbol"])
+        for _ in range(N):
+            if case["channel"] == "z":
+                bits = torch.zeros(L, dtype=torch.long)
+                bits[torch.randperm(L, generator=gw)[:K]] = 1
+            else:
+                bits = torch.randint(0, 2, (L,), generator=gw)
+            w = (2 * bits - 1) if case["alphabet"] == "pm1" else bits
+            if case["alphabet"] == "pm1" and not bool((w == -1).any()):
+                counts.append(None)  # a word without a -1 is not recognisable as bipolar: not part of the statement
+                continue
+            wx = w.to(DT[case["dtype"]])
+            wy = ch(wx).to(torch.float64)
+            if case["channel"] == "bec":
+                ev = torch.isnan(wy) if es_w != es_w else (wy == es_w)
+            else:
+                ev = wy != wx.to(torch.float64)
+                if case["channel"] == "z":
+                    ev = ev & bits.bool()
+            counts.append(int(ev.sum()))
+        counts = [c for c in counts if c is not None]
+        Nc = len(counts)
+        res.faults[f"{case['channel']}.short_word_calls"] += Nc
+        res.probes["stat.per_call_count_tests"] += 1
+        if Nc >= 500:
+            from math import comb
+
+            ok, d = stats.binom_test(sum(counts), Nc * K, p)
+            if not ok:
+                violate("rate_short_words", f"event rate over {Nc} calls with {K} eligible symbols each does not match the configured probability: {d}", stat=True)
+            for target, label in ((0, "no event"), (int(p * K + 0.5), "exactly round(p*K) events")):
+                q = comb(K, target) * (p ** target) * ((1 - p) ** (K - target))
+                ok, d = stats.binom_test(sum(1 for c in counts if c == target), Nc, q)
+                if not ok:
+                    violate("per_call_count_distribution", f"the number of calls with {label} among {Nc} calls ({K} eligible symbols each) is not binomial: {d}", stat=True)
+                    break
     # ---------------------------------------------------------------- statistical clauses
     if inside and nel >= 1:
         res.nontrivial.append(core.short_hash(case))
